@@ -62,6 +62,9 @@ pub(crate) struct StaticsContext {
     pub(crate) loop_stack: Vec<Option<NodeId>>,
     // most recent function return type while traversing AST
     pub(crate) func_ret_stack: Vec<TypeProv>,
+    // source ranges of the enclosing function / lambda / task bodies while traversing AST.
+    // a variable declared outside the innermost one is captured by value there
+    pub(crate) capture_scope_stack: Vec<Location>,
     // calls whose arguments are being typechecked. A default value is spliced into every call
     // that omits the argument, so a default value that omits itself would be expanded forever
     pub(crate) calls_being_checked: HashSet<NodeId>,
@@ -124,6 +127,7 @@ impl StaticsContext {
 
             loop_stack: Default::default(),
             func_ret_stack: Default::default(),
+            capture_scope_stack: Default::default(),
             calls_being_checked: Default::default(),
 
             interface_impls: Default::default(),
